@@ -10,11 +10,11 @@ let b01 s = (s = "1")
 let blist s = if s = "~" then [] else List.map bytes_of_hex (String.split_on_char ',' s)
 let bopt s = if s = "~" then None else Some (bytes_of_hex s)
 
-(* 11 tokens: secure samesite prefix ingresses sso domain name legacy rl logins window *)
+(* 13 tokens: secure samesite prefix ingresses sso domain name legacy rl logins window seg_prefix rl_ceil *)
 let config_of = function
-  | [sec; ss; pre; ing; sso; dom; nm; leg; rl; logins; win] ->
+  | [sec; ss; pre; ing; sso; dom; nm; leg; rl; logins; win; seg; ceil] ->
     ck_config (b01 sec) (bytes_of_hex ss) (bytes_of_hex pre) (blist ing) (b01 sso) (bytes_of_hex dom) (bytes_of_hex nm)
-      (b01 leg) (b01 rl) (z_of_string logins) (z_of_string win)
+      (b01 leg) (b01 rl) (z_of_string logins) (z_of_string win) (b01 seg) (b01 ceil)
   | _ -> failwith "config"
 
 let rec take n l = if n = 0 then [] else match l with x :: r -> x :: take (n - 1) r | [] -> failwith "take"
@@ -60,11 +60,11 @@ let rec jops toks =
 let () =
   register "curl" (fun toks -> match toks with [raw] -> print_toks (entry_url (bytes_of_hex raw)) | _ -> print_endline "?bad");
   register "cval" (fun toks -> print_toks (entry_validate (config_of toks)));
-  register "cmatch" (fun toks -> print_toks (entry_match (config_of (take 11 toks)) (bytes_of_hex (List.nth toks 11))));
+  register "cmatch" (fun toks -> print_toks (entry_match (config_of (take 13 toks)) (bytes_of_hex (List.nth toks 13))));
   register "cret" (fun toks -> match toks with [rc; st] -> print_toks (entry_retry (bopt rc) (z_of_string st)) | _ -> print_endline "?bad");
   register "cscript" (fun toks ->
-    let c = config_of (take 11 toks) in
-    match drop 11 toks with
+    let c = config_of (take 13 toks) in
+    match drop 13 toks with
     | https :: host :: hostport :: now0 :: np :: r ->
       let (probes, r') = origins (int_of_string np) r in
       print_toks (entry_script c (b01 https) (bytes_of_hex host) (bytes_of_hex hostport) (z_of_string now0) probes (items r'))
@@ -75,6 +75,6 @@ let () =
       else EvFail (z_of_string (String.sub s 1 (String.length s - 1))) in
     print_toks (entry_counter (List.map ev toks)));
   register "crl" (fun toks ->
-    let c = config_of (take 11 toks) in
-    let gaps = match drop 11 toks with [g] -> if g = "~" then [] else List.map z_of_string (String.split_on_char ',' g) | _ -> failwith "crl" in
+    let c = config_of (take 13 toks) in
+    let gaps = match drop 13 toks with [g] -> if g = "~" then [] else List.map z_of_string (String.split_on_char ',' g) | _ -> failwith "crl" in
     print_toks (entry_rl c gaps))
